@@ -254,6 +254,9 @@ def _append_loop(init, loop):
             return None
         gens.append(ast.comprehension(target=st.target, iter=st.iter, ifs=[], is_async=0))
         st = st.body[0]
+        if isinstance(st, ast.If) and not st.orelse and len(st.body) > 1:
+            st = copy.copy(st)
+            st.body = _subst_single_use_temps(st.body)
         if isinstance(st, ast.If) and not st.orelse and len(st.body) == 1 and not isinstance(st.body[0], ast.Continue):
             if mentions(st.test):
                 return None
